@@ -387,6 +387,10 @@ pub fn swarm(prop: &str, seed: u64) -> (GenCfg, Suffix, Shape) {
         c.burst_max = c.burst_max.min(3);
         c.max_handles = c.max_handles.min(3);
         c.ctor_ops = c.ctor_ops.min(2);
+        // no destructor faults there: the crate leaks the block of a value whose destructor
+        // unwound (by construction), which Miri's leak check would report at exit, and the
+        // relaxations that go with that fault read the allocator seam, which is off under Miri
+        c.w_event[EW_DROP_FAULT] = 0;
     }
     (c, suffix, shape)
 }
